@@ -133,7 +133,7 @@ Proof. exact guard_avg_tied. Qed.
 Goal True. idtac "ASSUME C19_tie_avg_guard". Abort.
 Print Assumptions C19_tie_avg_guard.
 
-Theorem C19_tie_avg_cov : forall sites, avg_cov here sites = guard_avg_cov (inZ (zsum sites)) (inZ (Z.of_nat (length sites))).
+Theorem C19_tie_avg_cov : forall sites, (avg_cov here sites == guard_avg_cov (inZ (zsum sites)) (inZ (Z.of_nat (length sites))))%Q.
 Proof. exact guard_avg_cov_tied. Qed.
 Goal True. idtac "ASSUME C19_tie_avg_cov". Abort.
 Print Assumptions C19_tie_avg_cov.
